@@ -281,8 +281,12 @@ class Ctx:
             "wall_s": round(time.time() - self.t0, 2),
             "violations": self.n_violation_cases,
         }
-        os.makedirs(os.path.join(VERIF, "evidence"), exist_ok=True)
-        path = os.path.join(VERIF, "evidence", "%s.json" % self.pid)
+        # runs against another checkout (VERIF_REPO: seeded changes, scratch worktrees) must not rewrite the evidence of /repo
+        evdir = os.environ.get("VERIF_EVIDENCE_DIR") or os.path.join(VERIF, "evidence")
+        if not os.environ.get("VERIF_EVIDENCE_DIR") and os.path.realpath(REPO) != "/repo":
+            evdir = os.path.join("/tmp", "verif_evidence_other_checkout")
+        os.makedirs(evdir, exist_ok=True)
+        path = os.path.join(evdir, "%s.json" % self.pid)
         tmp = path + ".tmp"
         with open(tmp, "w") as f:
             json.dump(ev, f, indent=1, sort_keys=True, default=str)
